@@ -278,4 +278,71 @@ theorem sim_bithl (b : Fin 8) (b2 : Nat) : SimulatesCbMemSF (opcodeBitHl b) b2 :
       rw [hu'.r14]
     rw [this]; exact h14
 
+/-! ### RL (HL), RR (HL) -/
+
+def rtHlOff (k : Nat) : Nat := [0, 42, 43, 44, 47, 49, 52, 58, 63, 69, 71].getD k 0
+def rmwOff8 (k : Nat) : Nat := [85, 89, 94, 104, 114, 116, 117, 118].getD k 0
+
+def Rt2.opHl : Rt2 → Op
+  | .rl => .RotateLeftIndirect | .rr => .RotateRightIndirect
+def opcodeRtHl (k : Rt2) : Nat := k.base + 6
+
+theorem table_rthl (k : Rt2) (b2 : Nat) :
+    decodeCode (Gen.emitCb (opcodeRtHl k)) = some (((rmwPre ++ (rottBodyAt k .E 36 38 40 rtHlOff ++ zTail .E 73 75 79 82)) ++ rmwPost rmwOff8) ++ [(119, addIp 2), (123, addCy 4)]) ∧
+    bytesOf (Gen.emitCb (opcodeRtHl k)) = 127 ∧ Gen.decode 0xcb (opcodeRtHl k) b2 = (k.opHl, 2, 16) := by
+  cases k <;> exact ⟨by decide +kernel, by decide +kernel, rfl⟩
+
+/-- **RL (HL), RR (HL)**: all states whose F has a clear low nibble, any bus; the status byte is left at 0 or 0x80 -/
+theorem sim_rthl (k : Rt2) (b2 : Nat) : SimulatesCbMemSF (opcodeRtHl k) b2 := by
+  obtain ⟨hdec, hbytes, hop⟩ := table_rthl k b2
+  refine ⟨_, hdec, ?_⟩
+  intro β B hB g fuel st st' hsim h0 hpc hrun
+  rw [hbytes] at hrun
+  rw [hop]
+  show ∃ g' m', runOp B k.opHl g st.bus 2 = .ok (g', m', STATUS_NORMAL) ∧ Sim { g' with cycles := g'.cycles + 16 / 4 } st' ∧ _
+  rw [show (16 : Nat) / 4 = 4 from rfl]
+  have hlt256 : ∀ v af, v < 256 → (k.res v af).1 < 256 := fun v af hv =>
+    (rotT_res k v hv af (mkFl (decide ((af % 256 &&& 16) + 240 + 0 ≥ 256))) rfl).2.2
+  obtain ⟨v, bus', hrd, hwr, hs', hb', hk', h14'⟩ := rmw_finish B hB (rottBodyAt k .E 36 38 40 rtHlOff ++ zTail .E 73 75 79 82)
+    (straight_app (straight_rottBodyAt k .E _ _ _ _) (straight_zTail .E _ _ _ _))
+    rmwOff8 119 123 127 2 4 36 (by cases k <;> rfl) rfl (by decide) (by decide)
+    (fun g' => flagsRot (setReg g' .E (k.res (getReg g' .E) g'.af).1) (k.res (getReg g' .E) g'.af) true)
+    (fun v r => ((k.res v r.af).1, flagsRot r (k.res v r.af) true))
+    (fun g => g.af % 16 = 0) (fun g1 g2 h hp => by rw [← h]; exact hp)
+    (fun g' => by
+      rw [getE_sameButAf (sameButAf_flagsRot _ _)]
+      exact getReg_setReg_self g' .E _ (hlt256 _ _ (getReg_lt g' .E)))
+    (fun g' => af_flagsRot _ _ _ _ rfl)
+    (fun g1 g2 v h => by
+      show (k.res v g1.af).1 = (k.res v g2.af).1 ∧ (flagsRot g1 (k.res v g1.af) true).af = (flagsRot g2 (k.res v g2.af) true).af
+      rw [h]; exact ⟨rfl, af_flagsRot _ _ _ _ h⟩)
+    (fun v g => sameButAf_flagsRot g _)
+    (fun v g => by
+      have hp := rotFlags_pack g (k.res v g.af)
+      have hlt : (((g.af % 256 &&& 0x0f) ||| (if (k.res v g.af).2 then 0x10 else 0)) ||| (if (k.res v g.af).1 == 0 then 0x80 else 0)) < 256 := by
+        apply Nat.or_lt_two_pow (n := 8)
+        · apply Nat.or_lt_two_pow (n := 8)
+          · exact Nat.lt_of_le_of_lt Nat.and_le_right (by decide)
+          · split <;> decide
+        · split <;> decide
+      exact hiA_pack _ _ _ (getReg_lt g .A) hlt hp g rfl)
+    (fun g' => by
+      obtain ⟨a, b, c, d⟩ := keep_sameButAf (sameButAf_flagsRot (setReg g' .E (k.res (getReg g' .E) g'.af).1) (k.res (getReg g' .E) g'.af))
+      exact ⟨a, b, c, d⟩)
+    (fun _ b => b.toNat % 256 = 0 ∨ b.toNat % 256 = 0x80)
+    (fun g' st0 s1 hs hp hex => rt_body_at B k .E 36 38 40 rtHlOff 73 75 79 82 _ g' st0 s1 hs hp hex)
+    g fuel st st' hsim h0 hpc hrun
+  refine ⟨advance (flagsRot g (k.res v g.af) true) 2, bus', ?_, ⟨hs'.af, hs'.hl, hs'.de, hs'.bc, hs'.sp, hs'.ip, hs'.cy, hs'.size⟩, hb', hk', h14'⟩
+  cases k
+  · show (do let (r, m) ← rmwHL B g st.bus (fun v r => let res := rlThrough v r.af; (res.1, flagsRot r res true)); _) = _
+    simp only [rmwHL, bind, Except.bind, hrd, pure, Except.pure]
+    have hwr' : B.write st.bus (getReg16 g .HL) (rlThrough v g.af).1 = .ok bus' := hwr
+    simp only [hwr']
+    rfl
+  · show (do let (r, m) ← rmwHL B g st.bus (fun v r => let res := rrThrough v r.af; (res.1, flagsRot r res true)); _) = _
+    simp only [rmwHL, bind, Except.bind, hrd, pure, Except.pure]
+    have hwr' : B.write st.bus (getReg16 g .HL) (rrThrough v g.af).1 = .ok bus' := hwr
+    simp only [hwr']
+    rfl
+
 end GbVerif.X86
